@@ -300,6 +300,167 @@ static void dump_pos(FILE* f, const edn_value_t* v) {
     }
 }
 
+
+/* Accessor coherence (oracle on the real code, not modelled): the predicates agree with edn_type as
+ * include/edn.h documents, every getter refuses a value of another type without writing through its out
+ * parameters, counts of other types are 0, index == count yields NULL, edn_number_as_double agrees with
+ * the typed getters.  A disagreement is printed into the dump, where the comparison with the model finds it. */
+static int audit_on = 1;
+static void audit_node(FILE* f, const edn_value_t* v) {
+    if (!audit_on)
+        return;
+    edn_type_t t = edn_type(v);
+    int is_num = t == EDN_TYPE_INT || t == EDN_TYPE_BIGINT || t == EDN_TYPE_FLOAT || t == EDN_TYPE_BIGDEC;
+#ifdef EDN_ENABLE_CLOJURE_EXTENSION
+    is_num = is_num || t == EDN_TYPE_RATIO;
+#endif
+    if (edn_is_nil(v) != (t == EDN_TYPE_NIL))
+        fputs("!ACCESSOR:is_nil", f);
+    if (edn_is_string(v) != (t == EDN_TYPE_STRING))
+        fputs("!ACCESSOR:is_string", f);
+    if (edn_is_number(v) != (is_num != 0))
+        fputs("!ACCESSOR:is_number", f);
+    if (edn_is_integer(v) != (t == EDN_TYPE_INT || t == EDN_TYPE_BIGINT))
+        fputs("!ACCESSOR:is_integer", f);
+    if (edn_is_collection(v) != (t == EDN_TYPE_LIST || t == EDN_TYPE_VECTOR || t == EDN_TYPE_MAP || t == EDN_TYPE_SET))
+        fputs("!ACCESSOR:is_collection", f);
+    {
+        bool b = true;
+        bool r = edn_bool_get(v, &b);
+        if (r != (t == EDN_TYPE_BOOL) || (!r && b != true))
+            fputs("!ACCESSOR:bool_get", f);
+    }
+    {
+        int64_t i = 0x5a5a5a5a5a5aLL;
+        bool r = edn_int64_get(v, &i);
+        if (r != (t == EDN_TYPE_INT) || (!r && i != 0x5a5a5a5a5a5aLL))
+            fputs("!ACCESSOR:int64_get", f);
+    }
+    {
+        double d = 1234.5;
+        bool r = edn_double_get(v, &d);
+        if (r != (t == EDN_TYPE_FLOAT) || (!r && d != 1234.5))
+            fputs("!ACCESSOR:double_get", f);
+    }
+    {
+        uint32_t c = 0xabcdef;
+        bool r = edn_character_get(v, &c);
+        if (r != (t == EDN_TYPE_CHARACTER) || (!r && c != 0xabcdef))
+            fputs("!ACCESSOR:character_get", f);
+    }
+    {
+        size_t len = 77;
+        bool neg = true;
+        uint8_t radix = 99;
+        const char* d = edn_bigint_get(v, &len, &neg, &radix);
+        if ((d != NULL) != (t == EDN_TYPE_BIGINT) || (d == NULL && len != 77 && len != 0))
+            fputs("!ACCESSOR:bigint_get", f);
+        len = 77;
+        d = edn_bigdec_get(v, &len, &neg);
+        if ((d != NULL) != (t == EDN_TYPE_BIGDEC) || (d == NULL && len != 77 && len != 0))
+            fputs("!ACCESSOR:bigdec_get", f);
+    }
+    if (t != EDN_TYPE_STRING) {
+        size_t len = 77;
+        if (edn_string_get(v, &len) != NULL || (len != 77 && len != 0))
+            fputs("!ACCESSOR:string_get", f);
+        if (edn_string_equals(v, ""))
+            fputs("!ACCESSOR:string_equals", f);
+    }
+    {
+        const char *ns = (const char*) 1, *nm = (const char*) 1;
+        size_t nsl = 77, nml = 77;
+        bool r = edn_symbol_get(v, &ns, &nsl, &nm, &nml);
+        if (r != (t == EDN_TYPE_SYMBOL) || (!r && (nm != (const char*) 1 || nml != 77)))
+            fputs("!ACCESSOR:symbol_get", f);
+        ns = nm = (const char*) 1;
+        nsl = nml = 77;
+        r = edn_keyword_get(v, &ns, &nsl, &nm, &nml);
+        if (r != (t == EDN_TYPE_KEYWORD) || (!r && (nm != (const char*) 1 || nml != 77)))
+            fputs("!ACCESSOR:keyword_get", f);
+    }
+    {
+        const char* tg = (const char*) 1;
+        size_t tl = 77;
+        edn_value_t* inner = (edn_value_t*) 1;
+        bool r = edn_tagged_get(v, &tg, &tl, &inner);
+        if (r != (t == EDN_TYPE_TAGGED) || (!r && (tg != (const char*) 1 || tl != 77 || inner != (edn_value_t*) 1)))
+            fputs("!ACCESSOR:tagged_get", f);
+    }
+    {
+        void* data = (void*) 1;
+        uint32_t tid = 4242;
+        bool r = edn_external_get(v, &data, &tid);
+        if (r != (t == EDN_TYPE_EXTERNAL) || (!r && (data != (void*) 1 || tid != 4242)))
+            fputs("!ACCESSOR:external_get", f);
+        if (r && (!edn_external_is_type(v, tid) || edn_external_is_type(v, tid + 1)))
+            fputs("!ACCESSOR:external_is_type", f);
+        if (!r && edn_external_is_type(v, 0))
+            fputs("!ACCESSOR:external_is_type", f);
+    }
+    {
+        size_t nl = edn_list_count(v), nv = edn_vector_count(v), ns = edn_set_count(v), nm = edn_map_count(v);
+        if ((t != EDN_TYPE_LIST && nl) || (t != EDN_TYPE_VECTOR && nv) || (t != EDN_TYPE_SET && ns) || (t != EDN_TYPE_MAP && nm))
+            fputs("!ACCESSOR:count", f);
+        if (edn_list_get(v, nl) || edn_vector_get(v, nv) || edn_set_get(v, ns) || edn_map_get_key(v, nm) || edn_map_get_value(v, nm))
+            fputs("!ACCESSOR:index==count", f);
+        if (edn_list_get(v, (size_t) -1) || edn_vector_get(v, (size_t) -1) || edn_set_get(v, (size_t) -1) ||
+            edn_map_get_key(v, (size_t) -1) || edn_map_get_value(v, (size_t) -1))
+            fputs("!ACCESSOR:index==SIZE_MAX", f);
+    }
+    {
+        double d = 1234.5;
+        bool r = edn_number_as_double(v, &d);
+        if (r != (is_num != 0) || (!r && d != 1234.5))
+            fputs("!ACCESSOR:number_as_double", f);
+        else if (r) {
+            double want = d;
+            int have_want = 0;
+            if (t == EDN_TYPE_INT) {
+                int64_t i = 0;
+                edn_int64_get(v, &i);
+                want = (double) i;
+                have_want = 1;
+            } else if (t == EDN_TYPE_FLOAT) {
+                edn_double_get(v, &want);
+                have_want = 1;
+            } else if (t == EDN_TYPE_BIGINT) {
+                size_t len = 0;
+                bool neg = false;
+                uint8_t radix = 0;
+                const char* ds = edn_bigint_get(v, &len, &neg, &radix);
+                if (ds && radix == 10 && len < 400 && memchr(ds, '_', len) == NULL) {
+                    char buf[402];
+                    memcpy(buf, ds, len);
+                    buf[len] = 0;
+                    want = strtod(buf, NULL);
+                    if (neg)
+                        want = -want;
+                    have_want = 2;
+                }
+            } else if (t == EDN_TYPE_BIGDEC) {
+                size_t len = 0;
+                bool neg = false;
+                const char* ds = edn_bigdec_get(v, &len, &neg);
+                if (ds && len < 400 && memchr(ds, '_', len) == NULL) {
+                    char buf[402];
+                    memcpy(buf, ds, len);
+                    buf[len] = 0;
+                    want = strtod(buf, NULL);
+                    if (neg)
+                        want = -want;
+                    have_want = 2;
+                }
+            }
+            if (have_want == 1 && !(isnan(want) && isnan(d)) && memcmp(&want, &d, 8) != 0)
+                fputs("!ACCESSOR:number_as_double-value", f);
+            if (have_want == 2 && !(isinf(want) && isinf(d) && (want > 0) == (d > 0)) &&
+                !(fabs(d - want) <= 1e-9 * fabs(want)))
+                fputs("!ACCESSOR:number_as_double-value", f);
+        }
+    }
+}
+
 static void dump_meta(FILE* f, const edn_value_t* v, int depth) {
 #ifdef EDN_ENABLE_CLOJURE_EXTENSION
     if (edn_value_has_meta(v)) {
@@ -322,6 +483,7 @@ static void dump_value(FILE* f, const edn_value_t* v, int depth) {
         fputs("(deep)", f);
         return;
     }
+    audit_node(f, v);
     switch (edn_type(v)) {
         case EDN_TYPE_NIL:
             fputs("(nil", f);
